@@ -205,3 +205,6 @@ pub fn c10_q_hostile_transport_read() {
 pub fn c10_q_hostile_transport_write() {
     c14_q_transport_write();
 }
+
+hostile!(c14_q_ix_r0, hostile_read, Pat::IX, 0, 0);
+hostile!(c14_q_ix_w0, hostile_write, Pat::IX, 0, 0);
